@@ -3,11 +3,13 @@ use crate::runner::PropertyDef;
 
 pub mod c08;
 pub mod c09;
+pub mod c10;
 
 pub fn get(id: &str) -> Option<PropertyDef> {
     match id {
         "C08" => Some(c08::def()),
         "C09" => Some(c09::def()),
+        "C10" => Some(c10::def()),
         _ => None,
     }
 }
